@@ -64,7 +64,7 @@ impl GenCfg {
     pub fn default_for(limit: usize) -> GenCfg {
         GenCfg {
             limit,
-            window: 1024,
+            window: crate::model::WINDOW,
             max_reqs: 6,
             allow_big: true,
             corrupt: 250,
@@ -366,7 +366,8 @@ pub fn corrupt(rng: &mut Rng, r: &mut GenReq, which: usize) {
         17 => r.blank = if rng.chance(1, 2) { b"\n".to_vec() } else { b"\r".to_vec() },
         18 => {
             // line longer than the window
-            let extra = rng.range(1000, 1100);
+            let w = crate::model::WINDOW;
+            let extra = rng.range(w - 24, w + 76);
             if rng.chance(1, 2) {
                 r.uri.extend(std::iter::repeat(b'u').take(extra));
             } else {
